@@ -308,7 +308,8 @@ class Unit:
                 bounds = []
                 if ':' in txt:
                     for b in split_top(txt.split(':', 1)[1], '+'):
-                        if self.is_crate_trait(trait_name(b.strip())):
+                        # a bound on the trait itself (Matrix::Transpose: Matrix<..>) is a definitional cycle for Verus: dropped
+                        if self.is_crate_trait(trait_name(b.strip())) and trait_name(b.strip()) != tr.name:
                             bounds.append(subst_text(b.strip(), self.subst))
                 body.append('    type %s%s;\n' % (it.name, (': ' + ' + '.join(bounds)) if bounds else ''))
             elif isinstance(it, Fn) and it.name in methods:
